@@ -18,7 +18,12 @@ def plant_clash(rng, recs):
         # a whole record repeated: identical, with permuted synonyms, or identical up to ",".join of the synonyms
         i = rng.randrange(len(recs))
         dup = copy.deepcopy(recs[i])
-        how = rng.choice(["identical", "permuted", "joined"])
+        how = rng.choice(["identical", "permuted", "joined", "pattern-differs", "pattern-differs"])
+        if how == "pattern-differs":
+            # same canonical prefix and URI prefix, one copy with a pattern and one without (or with another one): whatever
+            # the constructor compares or sorts by must cope with the optional field
+            dup["ps"], dup["us"] = [], []
+            dup["pat"] = None if recs[i].get("pat") is not None else cps("^\\d+$")
         if how == "permuted":
             dup["ps"] = list(reversed(dup["ps"]))
             dup["us"] = list(reversed(dup["us"]))
